@@ -47,6 +47,7 @@ class World:
         self.next_tick = 1.0
         self.transitions = 0
         self.packed = False
+        self.expected_merges = []
         self.record = record
         if record:
             iolog.install()
@@ -125,11 +126,14 @@ class World:
             elif k == 'del':
                 ops += [('del', o) for o in live]
             elif k == 'undo':
+                # (undo of a transaction that itself wrote one oid twice is
+                # outside the modelled alphabet)
                 ul = [d for d in m.undoLog() if d['_n']]
                 n = min(spec.undo_k, len(ul))
-                ops += [('undo', i) for i in range(n)]
+                ops += [('undo', i) for i in range(n) if not ul[i]['_dup']]
             elif k == 'undo2':
-                if len([d for d in m.undoLog() if d['_n']]) >= 2:
+                ul = [d for d in m.undoLog() if d['_n']]
+                if len(ul) >= 2 and not ul[0]['_dup'] and not ul[1]['_dup']:
                     ops.append(('undo2', 0, 1))
             elif k == 'stale':
                 for o in live:
@@ -192,7 +196,17 @@ class World:
         return hclasses.mkrec(spec.cls(o), self.newval(), refs, pad)
 
     def apply(self, op, spec):
-        out = self._apply(op, spec)
+        if getattr(self, 'dead', False):
+            return 'dead'
+        try:
+            out = self._apply(op, spec)
+        except Exception as e:      # noqa: B902
+            # nothing in the alphabet is outside the API's preconditions, so
+            # an exception escaping a step is a finding, not a harness error
+            self.bad('error', '%s:%s' % (op[0], type(e).__name__),
+                     dict(op=op, error=repr(e)[:300]))
+            self.dead = True
+            out = 'error'
         self.outcomes.append(out)
         return out
 
@@ -433,8 +447,7 @@ class World:
             return None
         return self._merge(old, committed, data)
 
-    @staticmethod
-    def _merge(old, committed, new):
+    def _merge(self, old, committed, new):
         """Semantic merge ('sem', cls, v, refs, pad) or None."""
         d = [hclasses.decode(x) for x in (old, committed, new)]
         if any(x is None for x in d):
@@ -442,12 +455,16 @@ class World:
         if d[2][0] != 'R':
             return None
         v = hclasses.merge_v(d[0][1], d[1][1], d[2][1])
+        # what the class's resolver must be shown: (old, committed, new)
+        self.expected_merges.append(tuple(x[1:] for x in d))
         return ('sem', 'R', v, d[2][2], d[2][3])
 
     def txn(self, actions, user=b'', desc=b'', ext=None, abort=None,
             tid=None, status=' '):
         s = self.storage
         m = self.model
+        self.expected_merges = []
+        del hclasses.RESOLVE_LOG[:]
         plan = self.plan(actions)
         t = TMD(user, desc, ext)
         before_last = m.last_tid()
@@ -505,6 +522,10 @@ class World:
             self.bad('step', 'tpc_vote:%s' % r.name, dict(got=repr(r)))
             return 'error'
         _, recs, resolved = plan
+        if hclasses.RESOLVE_LOG != self.expected_merges:
+            self.bad('resolver', 'arguments',
+                     dict(expected=self.expected_merges,
+                          got=list(hclasses.RESOLVE_LOG)))
         if self.flavor == 'F' and not any(a[0] == 'undo' for a in actions):
             if sorted(r or ()) != sorted(resolved):
                 self.bad('step', 'vote-resolved',
